@@ -7,9 +7,9 @@ SPEC = {
                  'formula over the rows; per-path unsat; structural refusals enumerated concretely',
     'bounds': {'quick': 'frames of <= 3 rows, 2 ceilometers, heights any real or NaN (negative included), type -1..4, '
                         'optional extra column with arbitrary values, arbitrary (repeated) index labels, type given as '
-                        'integral float / dt and height given as int',
+                        'integral float / dt given as int / type given as int32',
                'thorough': 'every variant at <= 3 rows; 4 rows for the plain variant'},
-    'outside': 'dtype coercions other than the two modelled (what astype does to text etc. is pandas behaviour); NaN time stamps',
+    'outside': 'dtype coercions other than the three modelled (what astype does to text etc. is pandas behaviour); NaN time stamps',
     'budget_s': {'quick': 900, 'thorough': 3000},
 }
 REQ = ['ceilo', 'dt', 'height', 'type']
@@ -45,9 +45,14 @@ def h_check(E, N, extra, variant):
             df.dtypes['type'] = float
         if variant == 2:
             df.dtypes['dt'] = int
+        if variant == 3:      # type given as an int32 column (same values, narrower integers)
+            from models.pdmodel import NarrowDtype
+            df.dtypes['type'] = NarrowDtype('i', 32)
         if extra:
             df.dtypes['extra'] = int
     else:
+        if variant == 3:
+            df['type'] = df['type'].astype('int32')
         if variant == 1:
             df['type'] = df['type'].astype(float)
         if variant == 2:
@@ -104,8 +109,8 @@ def h_structural(E):
 
 
 HARNESSES = [
-    H('H-check', h_check, quick=[(1, 0, 0), (2, 0, 0), (2, 1, 0), (2, 0, 1), (2, 0, 2), (3, 0, 0), (3, 1, 0)],
-      thorough=[(n, x, v) for n in (1, 2, 3) for x in (0, 1) for v in (0, 1, 2)] + [(4, 0, 0)],
+    H('H-check', h_check, quick=[(1, 0, 0), (2, 0, 0), (2, 1, 0), (2, 0, 1), (2, 0, 2), (2, 0, 3), (3, 0, 0), (3, 1, 0)],
+      thorough=[(n, x, v) for n in (1, 2, 3) for x in (0, 1) for v in (0, 1, 2, 3)] + [(4, 0, 0)],
       float_model='R',
       cover=['refused: duplicated row', 'refused: VV next to a non-detection', 'accepted: coincident stamps on two ceilometers',
              'accepted: repeated index labels'],
